@@ -6,6 +6,8 @@
  *
  * case file, one case set per line (line i is handled by shard i % nshards):
  *   E <chain>       every assignment of the five outcomes 0..4 to the basic rules of the chain
+ *   P <chain>       every distinct execution path: like E, but assignments that differ only in rules that were not invoked are run once
+ *                   (a rule's outcome is visible to the library only by invoking it); rules not invoked are held at outcome 0
  *   R <n> <chain>   n random assignments of the eight outcome variants 0..7 (seeded by <seed> and the line number)
  * chain  := policy ('|' policy)*      first policy is the primary one, each next one is the fallback of the previous
  * policy := list ; list := elem+ ; elem := 'b' (basic rule) | 'a(' list ')' (AND composite) | 'o(' list ')' (OR composite)
@@ -452,18 +454,37 @@ int main(int argc, char **argv) {
 	} else {
 		FILE *f = fopen(argv[4], "r"); char *line = NULL; size_t cap = 0; long lineno = -1;
 		int shard = atoi(argv[5]), nshards = atoi(argv[6]); uint64_t seed = argc > 7 ? strtoull(argv[7], NULL, 10) : 1;
-		uint64_t n_exh = 0, n_rnd = 0; int nsamp = 0;
+		uint64_t n_exh = 0, n_rnd = 0, n_path = 0; int nsamp = 0;
 		if (!f) { fprintf(stderr, "cannot open %s\n", argv[4]); return 3; }
 		while (getline(&line, &cap, f) > 0) {
-			char *p = line, *text; size_t L = strlen(line); long nrand = 0; int exhaustive;
+			char *p = line, *text; size_t L = strlen(line); long nrand = 0; int exhaustive, paths = 0;
 			lineno++;
 			if (lineno % nshards != shard) continue;
 			while (L && (line[L - 1] == '\n' || line[L - 1] == '\r')) line[--L] = 0;
 			if (p[0] == 'E' && p[1] == ' ') { exhaustive = 1; text = p + 2; }
+			else if (p[0] == 'P' && p[1] == ' ') { exhaustive = 1; paths = 1; text = p + 2; }
 			else if (p[0] == 'R' && p[1] == ' ') { exhaustive = 0; nrand = strtol(p + 2, &text, 10); while (*text == ' ') text++; }
 			else continue;
 			if (chain_build(&c, text) != 0) { vh_count("skipped_out_of_domain", 1); continue; }
-			if (exhaustive) {
+			if (exhaustive && paths) {
+				uint64_t iter = 0, cap = 1;
+				for (i = 0; i < c.nslot && cap < 4000000000ull; i++) cap *= 5;
+				g_fill = 1;
+				memset(g_out, 0, sizeof(g_out));
+				for (;;) {
+					int seq[MAXSLOT], nseq = 0, k; char seen[MAXSLOT];
+					set_case_note(&c);
+					run_case(&c, &vc); n_path++;
+					/* rules invoked in this case, in order of first invocation (library first, then any the reference had in addition) */
+					memset(seen, 0, sizeof(seen));
+					for (i = 0; i < g_nlog && i < MAXLOG; i++) { int sl = g_log[i]; if (sl >= 0 && sl < c.nslot && !seen[sl]) { seen[sl] = 1; seq[nseq++] = sl; } }
+					for (i = 0; i < ref_nlog; i++) { int sl = ref_log[i]; if (!seen[sl]) { seen[sl] = 1; seq[nseq++] = sl; } }
+					/* odometer over the executed path: the last invoked rule gets its next outcome, exhausted ones return to 0 and carry */
+					for (k = nseq - 1; k >= 0 && ++g_out[seq[k]] == 5; k--) g_out[seq[k]] = 0;
+					if (k < 0) break;
+					if (++iter >= cap) { vh_count("path_enumeration_aborted", 1); break; }
+				}
+			} else if (exhaustive) {
 				g_fill = 1;
 				memset(g_out, 0, sizeof(g_out));
 				for (;;) {
@@ -496,7 +517,7 @@ int main(int argc, char **argv) {
 			chain_free(&c);
 		}
 		free(line); fclose(f);
-		vh_count("exhaustive_cases", n_exh); vh_count("random_cases", n_rnd);
+		vh_count("exhaustive_cases", n_exh); vh_count("path_cases", n_path); vh_count("random_cases", n_rnd);
 	}
 	vh_count("final_OK", n_final[0]); vh_count("final_NA", n_final[1]); vh_count("final_FAIL", n_final[2]); vh_count("final_internal_error", n_final[3]);
 	vh_count("final_NA_from_untouched_result", n_final[4]);
